@@ -28,6 +28,11 @@ unchanged from the copy -- in-process and in a fresh interpreter with another ha
 memoized entries travel AND are still found.  Graphs reaching a stamp body are outside Model/Pickle.v
 (user functions are pure there): oracle only.
 
+A hand-written module (userkinds_spec) and the generated impure module also contain datasets DEFINED by every other kind
+of callable pickle can store (module-level class, functools.partial, bound method of a module-level instance, classmethod,
+staticmethod, callable instance) and datasets holding USER SUBCLASSES of MemoryCache / Cache / Effect / PipelineStep with
+state of their own (a bounded cache: copies miss as well as hit).  Outside Model/Pickle.v: oracle only (spec["user"]).
+
 Known finding D18: decorator-form graphs cannot be pickled (PicklingError).  Those failures are
 tagged D18; the same graphs are additionally round-tripped with a pickler that stores the shadowed
 function by a persistent id, so that everything ELSE about them is still checked.
@@ -59,8 +64,11 @@ D18_WHAT = ("pickle.dumps of a decorator-form dataset (@dataset def ds(...)), or
 # ============================================================================ module source
 
 HEADER = '''\
-from labrea import Option, dataset, abstractdataset, Value
-from labrea.pipeline import Pipeline
+from labrea import Option, dataset, abstractdataset, Value, Map
+from labrea.pipeline import Pipeline, PipelineStep
+from labrea.cache import Cache, MemoryCache, CacheGetFailure
+from labrea.computation import Effect
+import functools
 import os
 
 LOG = []
@@ -98,11 +106,116 @@ def extra_impl(e=Option('E', 0)):
 
 extra = dataset(extra_impl)
 
+
+# user subclasses of library classes, each with state of its own (used by the modules marked "user")
+class BoundedCache(MemoryCache):
+    """a MemoryCache that stops growing after `maxsize` entries (overrides set; own attribute)"""
+
+    def __init__(self, maxsize):
+        super().__init__()
+        self.maxsize = maxsize
+
+    def set(self, evaluatable, options, value):
+        if len(self._cache) < self.maxsize:
+            super().set(evaluatable, options, value)
+
+
+class TaggedCache(Cache):
+    """a direct Cache subclass: own store, keyed by an attribute of its own and the fingerprint"""
+
+    def __init__(self, tag):
+        self.tag = tag
+        self.store = {}
+
+    def get(self, evaluatable, options):
+        try:
+            return self.store[(self.tag, evaluatable.fingerprint(options))]
+        except KeyError as e:
+            raise CacheGetFailure(evaluatable, options, self) from e
+
+    def set(self, evaluatable, options, value):
+        self.store[(self.tag, evaluatable.fingerprint(options))] = value
+
+
+class TagEffect(Effect):
+    """a direct Effect subclass with an attribute of its own and a dependency"""
+
+    def __init__(self, tag, dep=None):
+        self.tag = tag
+        self.dep = dep
+
+    def transform(self, value, options=None):
+        LOG.append(['tageff', self.tag, None if self.dep is None else self.dep.evaluate(options), value])
+
+    def validate(self, options):
+        if self.dep is not None:
+            self.dep.validate(options)
+
+    def explain(self, options=None):
+        return set() if self.dep is None else self.dep.explain(options)
+
+
+def _tagged(tag, x):
+    return ('step', tag, x)
+
+
+class TagStep(PipelineStep):
+    """a PipelineStep subclass whose transformation depends on an attribute of its own"""
+
+    def __init__(self, tag):
+        super().__init__(Value(cb1))
+        self.tag = tag
+
+    def evaluate(self, options):
+        return functools.partial(_tagged, self.tag)
+
 '''
+
+
+# option namespaces of every form (modules with spec["namespaces"]): bare, implicit nested, explicitly named nested and
+# top-level, annotation-only members, defaults, Option.auto members (with a doc, with a transformation by a builtin)
+NAMESPACES = '''\
+@Option.namespace
+class NS0:
+    A: int
+    B = 7
+    C = Option.auto(default='c', doc='an automatic option')
+    N = Option.auto(default=1, doc='transformed') >> str
+    MODE = 'x'
+
+    class SUB:
+        X: int
+        Y = 'y'
+
+    @Option.namespace("NM-2")
+    class NAMED:
+        Z = 3
+        W = Option.auto(doc='no default')
+
+
+@Option.namespace("PKG-1")
+class NS1:
+    A = 1
+    MODE = Option.auto(default='y', doc='dispatch source')
+
+    class IN:
+        B: str
+
+'''
+# dependencies on namespaces: the WHOLE namespace object (bare / nested / named), members, a Map over a namespace
+NS_SOURCES = [["ns", "NS0"], ["ns", "NS0.SUB"], ["ns", "NS0.NAMED"], ["ns", "NS1"], ["ns", "NS1.IN"],
+              ["nsm", "NS0.C"], ["nsm", "NS0.N"], ["nsm", "NS0.SUB.X"], ["nsm", "NS1.IN.B"],
+              ["mapns", "NS0.SUB", "NS0.SUB.X", [1, 2]], ["mapns", "NS1", "PKG-1.A", [3]]]
+NS_DISPATCH = {"NS0.MODE": ("NS0.MODE", "x"), "NS1.MODE": ("PKG-1.MODE", "y")}     # member -> (option key, default)
+NS_FULL = {"NS0.A": 11, "NS0.SUB.X": 12, "PKG-1.IN.B": "b", "NS0.NM-2.W": 13}
 
 
 def _src(s):
     k = s[0]
+    if k in ("ns", "nsm"):
+        return s[1]
+    if k == "mapns":
+        return f"(Map({s[1]}, {{{s[2]!r}: {s[3]!r}}}) >> list)"
     if k == "opt":
         return f"Option({s[1]!r})"
     if k == "optd":
@@ -140,25 +253,91 @@ def _factory(ds):
     base = "abstractdataset" if ds.get("abstract") else "dataset"
     if ds.get("nocache"):
         base += ".nocache"
+    c = ds.get("cache")
+    if c:      # a user subclass of MemoryCache / Cache, with state of its own
+        kw.append(f"cache=BoundedCache({c[1]!r})" if c[0] == "bounded" else f"cache=TaggedCache({c[1]!r})")
     return base, kw
+
+
+def _stmts(fname, ds, names, lead=()):
+    """(statements before the result, source of the result tuple) of a generated body"""
+    pre = [f"LOG.append(['call', {fname!r}])"]
+    kind = ds.get("kind", "tag")
+    if kind == "first":
+        return pre, names[0]
+    if kind == "stamp":
+        return pre, "(" + ", ".join([repr(fname), "_stamp()"] + list(lead) + names) + ")"
+    if kind == "raise_if":
+        pre.append("if any(isinstance(v, str) and v == 'bad' for v in (" + "".join(n + ", " for n in names) + ")):")
+        pre.append("    raise RuntimeError('bad argument')")
+    items = [repr(fname)] + list(lead) + names
+    return pre, "(" + ", ".join(items) + ("," if len(items) == 1 else "") + ")"
 
 
 def _body(fname, ds):
     ps = ds.get("params", [])
     sig = ", ".join(f"{p}={_src(s)}" for p, s in ps)
+    pre, ret = _stmts(fname, ds, [p for p, _ in ps])
+    return [f"def {fname}({sig}):"] + ["    " + x for x in pre] + [f"    return {ret}"]
+
+
+DEFKINDS = ["class", "partial", "partialkw", "method", "classmethod", "staticmethod", "callable"]
+
+
+def def_qualname(ds):
+    """qualified name of the plain function that a definition of this kind hands to labrea (when it is one)"""
+    return fn_name(ds) + "_cls.run" if ds.get("defkind") == "staticmethod" else fn_name(ds)
+
+
+def _emit_definition(fname, ds, out):
+    """Emits the definition of a dataset in the kind asked for (explicit form); returns the source expression that is
+    handed to dataset(...) / overload(...).  Every kind is picklable by the rules of pickle: a module-level function,
+    a module-level CLASS (the constructor's defaults are the dependencies, the value is the instance), a
+    functools.partial of a module-level function (positional / keyword), a bound method of a module-level instance,
+    a classmethod, a staticmethod (a function with a dotted qualified name), a callable instance."""
+    dk = ds.get("defkind")
+    if not dk:
+        out.extend(_body(fname, ds))
+        return fname
+    ps = ds.get("params", [])
+    sig = ", ".join(f"{p}={_src(s)}" for p, s in ps)
     names = [p for p, _ in ps]
-    lines = [f"def {fname}({sig}):", f"    LOG.append(['call', {fname!r}])"]
-    kind = ds.get("kind", "tag")
-    if kind == "first":
-        lines.append(f"    return {names[0]}")
-    elif kind == "stamp":
-        lines.append("    return (" + ", ".join([repr(fname), "_stamp()"] + names) + ")")
-    else:
-        if kind == "raise_if":
-            lines.append("    if any(isinstance(v, str) and v == 'bad' for v in (" + "".join(n + ", " for n in names) + ")):")
-            lines.append("        raise RuntimeError('bad argument')")
-        lines.append("    return (" + ", ".join([repr(fname)] + names) + ("," if not names else "") + ")")
-    return lines
+    if dk == "class":
+        pre, ret = _stmts(fname, ds, names)
+        out.append(f"class {fname}:")
+        out.append(f"    def __init__(self{', ' + sig if sig else ''}):")
+        out.extend("        " + x for x in pre)
+        out.append(f"        self.value = {ret}")
+        out.append("")
+        out.append("    def as_tuple(self):")
+        out.append("        return self.value")
+        out.append("")
+        return fname
+    if dk in ("partial", "partialkw"):
+        pre, ret = _stmts(fname, ds, names, lead=["k"])
+        out.append(f"def {fname}(k{', ' + sig if sig else ''}):")
+        out.extend("    " + x for x in pre)
+        out.append(f"    return {ret}")
+        out.append("")
+        return f"functools.partial({fname}, {'k=' if dk == 'partialkw' else ''}{'k_' + ds['name']!r})"
+    tag = fname + "_cls.run" if dk == "staticmethod" else fname
+    lead = {"method": ["self.tag"], "callable": ["self.tag"], "classmethod": ["cls.__name__"], "staticmethod": []}[dk]
+    pre, ret = _stmts(tag, ds, names, lead=lead)
+    first = {"method": "self", "callable": "self", "classmethod": "cls", "staticmethod": ""}[dk]
+    args = ", ".join(x for x in (first, sig) if x)
+    out.append(f"class {fname}_cls:")
+    out.append("    def __init__(self, tag):")
+    out.append("        self.tag = tag")
+    out.append("")
+    if dk in ("classmethod", "staticmethod"):
+        out.append(f"    @{dk}")
+    out.append(f"    def {'__call__' if dk == 'callable' else 'run'}({args}):")
+    out.extend("        " + x for x in pre)
+    out.append(f"        return {ret}")
+    out.append("")
+    out.append(f"{fname}_obj = {fname}_cls({'t_' + ds['name']!r})")
+    return {"method": f"{fname}_obj.run", "callable": f"{fname}_obj", "classmethod": f"{fname}_cls.run",
+            "staticmethod": f"{fname}_cls.run"}[dk]
 
 
 def fn_name(ds):
@@ -172,9 +351,9 @@ def _emit_dataset(ds, out):
         out.append("@" + base + ("(" + ", ".join(kw) + ")" if kw else ""))
         out.extend(_body(fname, ds))
     else:
-        out.extend(_body(fname, ds))
+        definition = _emit_definition(fname, ds, out)
         call = base + ("(" + ", ".join(kw) + ")" if kw else "")
-        out.append(f"{ds['name']} = {call}({fname})")
+        out.append(f"{ds['name']} = {call}({definition})")
     if ds.get("effects_disabled"):
         out.append(f"{ds['name']}.disable_effects()")      # the per-dataset toggle is part of the pickled state
     out.append("")
@@ -201,8 +380,7 @@ def _emit_overload(owner, ov, out):
             out.append("@" + d)
         out.extend(_body(fname, sub))
     else:
-        out.extend(_body(fname, sub))
-        expr = fname
+        expr = _emit_definition(fname, sub, out)
         for d in reversed(decos):
             expr = f"{d}({expr})"
         out.append(f"{sub['name']} = {expr}")
@@ -211,6 +389,8 @@ def _emit_overload(owner, ov, out):
 
 def gen_source(spec):
     out = [HEADER]
+    if spec.get("namespaces"):
+        out.append(NAMESPACES)
     for ds in spec["datasets"]:
         _emit_dataset(ds, out)
     for dv in spec.get("derived", []):
@@ -245,10 +425,10 @@ def fn_kinds(spec):
     """function name -> kind, for the model's function table"""
     kinds = {"eff_raise": "raise"}
     for ds in spec["datasets"]:
-        kinds[fn_name(ds)] = ds.get("kind", "tag")
+        kinds[def_qualname(ds)] = ds.get("kind", "tag")
         for ov in ds.get("overloads", []):
             if ov["target"][0] == "new":
-                kinds[fn_name(ov["target"][1])] = ov["target"][1].get("kind", "tag")
+                kinds[def_qualname(ov["target"][1])] = ov["target"][1].get("kind", "tag")
     for cy in spec.get("cycles", []):
         kinds[cy["name"] + "_impl"] = "tag"
     return kinds
@@ -301,8 +481,11 @@ def _params(rng, names, kind):
     return ps
 
 
-def gen_world(rng, modname, mixed, max_ds=6, impure=0.0):
-    """impure: share of the bodies whose value embeds (os.getpid(), call counter) -- such graphs are outside the model"""
+def gen_world(rng, modname, mixed, max_ds=6, impure=0.0, user=0.0):
+    """impure: share of the bodies whose value embeds (os.getpid(), call counter) -- such graphs are outside the model
+    user: share of the datasets that get a definition of another picklable kind (DEFKINDS), a user subclass of
+    MemoryCache / Cache as cache, a user Effect subclass among the effects, a user PipelineStep subclass in the
+    callback -- outside the model as well (no random draw is made for them when user == 0)"""
     names, firsts, dss = [], [], []
     n = rng.randint(3, max_ds)
     for i in range(n):
@@ -312,6 +495,8 @@ def gen_world(rng, modname, mixed, max_ds=6, impure=0.0):
         if impure and kind == "tag" and rng.random() < impure:
             kind = "stamp"
         ds = {"name": name, "form": form, "kind": kind, "params": _params(rng, names, kind)}
+        if user and kind != "first" and rng.random() < user:       # a dependency on an option namespace
+            ds["params"].append([f"p{len(ds['params'])}", rng.choice(NS_SOURCES)])
         r = rng.random()
         if r < 0.30:
             ds["dispatch"] = ["key", rng.choice(DKEYS)]
@@ -333,6 +518,15 @@ def gen_world(rng, modname, mixed, max_ds=6, impure=0.0):
             ds["effects_disabled"] = True
         if rng.random() < 0.15:
             ds["nocache"] = True
+        if user:
+            if form == "explicit" and kind != "first" and rng.random() < user:
+                ds["defkind"] = rng.choice(DEFKINDS)
+            if not ds.get("nocache") and rng.random() < user:
+                ds["cache"] = rng.choice([["bounded", rng.choice([1, 2, 4])], ["tagged", "c_" + name]])
+            if kind != "first" and rng.random() < user:
+                ds["effects"] = ds.get("effects", []) + [rng.choice([f"TagEffect('t_{name}')", f"TagEffect('t_{name}', Option('E', 0))"])]
+            if kind != "first" and rng.random() < user / 2:
+                ds["callback"] = ds.get("callback", []) + [f"TagStep('s_{name}')"]
         ovs = []
         if ds.get("dispatch"):
             pool = list(ALIASES)
@@ -357,6 +551,8 @@ def gen_world(rng, modname, mixed, max_ds=6, impure=0.0):
                     if impure and sub["kind"] == "tag" and rng.random() < impure:
                         sub["kind"] = "stamp"
                     sub["params"] = _params(rng, names, sub["kind"])
+                    if user and sub["form"] == "explicit" and rng.random() < user:
+                        sub["defkind"] = rng.choice(DEFKINDS)
                     tgt = ["new", sub]
                 ovs.append({"how": how, "aliases": aliases, "target": tgt})
         ds["overloads"] = ovs
@@ -378,7 +574,65 @@ def gen_world(rng, modname, mixed, max_ds=6, impure=0.0):
                 own = [a for ov in ds["overloads"] for a in ov["aliases"]]
                 cycles.append({"owner": ds["name"], "name": ds["name"] + "_c", "alias": "cyc_" + ds["name"], "dk": d[1],
                                "pin": rng.choice(own + ["nope"])})
-    return {"module": modname, "datasets": dss, "derived": derived, "cycles": cycles}
+    out = {"module": modname, "datasets": dss, "derived": derived, "cycles": cycles}
+    if user:
+        out["user"] = True
+        out["namespaces"] = True
+    return out
+
+
+def userkinds_spec(modname):
+    """A hand-written module (explicit form; runs every time): every kind of definition pickle can store (DEFKINDS) and a
+    user subclass of each library class a dataset holds (MemoryCache, Cache, Effect, PipelineStep), each with state of
+    its own that its behaviour depends on.  Outside Model/Pickle.v (plain functions, library classes): oracle only."""
+    def sub(name, params, kind="tag", defkind=None):
+        d = {"name": name, "form": "explicit", "kind": kind, "params": params}
+        if defkind:
+            d["defkind"] = defkind
+        return d
+    dss = [
+        {"name": "u0", "form": "explicit", "kind": "tag", "params": [["a", ["opt", "A"]], ["b", ["optd", "S.X", 7]], ["ns", ["ns", "NS0"]]],
+         "cache": ["bounded", 2], "effects": ["TagEffect('t0', Option('E', 0))"], "callback": ["TagStep('s0')"], "overloads": []},
+        {"name": "u1", "form": "explicit", "kind": "tag", "defkind": "class", "params": [["a", ["opt", "A"]], ["w", ["ds", "u0"]]],
+         "dispatch": ["key", "D1"], "default_options": {"A": 5},
+         "overloads": [{"how": "register", "aliases": ["x"], "target": ["opt", "C"]},
+                       {"how": "overload", "aliases": ["y"], "target": ["new", sub("u1_y", [["c", ["opt", "C"]]], defkind="partial")]},
+                       {"how": "stacked", "aliases": [1, 2], "target": ["new", sub("u1_s", [["y", ["opt", "S.Y"]]], defkind="callable")]}]},
+        {"name": "u2", "form": "explicit", "kind": "tag", "defkind": "partial", "params": [["b", ["optd", "B", 0]], ["n", ["ds", "u1"]], ["sub", ["ns", "NS0.SUB"]], ["c", ["nsm", "NS0.C"]]],
+         "cache": ["tagged", "c2"], "overloads": []},
+        {"name": "u3", "form": "explicit", "kind": "raise_if", "defkind": "partialkw", "params": [["a", ["opt", "A"]], ["c", ["optdo", "C", "T.U.V"]]],
+         "effects": ["eff1", "TagEffect('t3')"], "overloads": []},
+        {"name": "u4", "form": "explicit", "kind": "tag", "defkind": "method", "params": [["a", ["opt", "A"]], ["x", ["optd", "S.X", 7]]],
+         "callback": ["cb1", "TagStep('s4')"], "cache": ["bounded", 1], "options": {"S": {"Y": 2}}, "overloads": []},
+        {"name": "u5", "form": "explicit", "kind": "tag", "defkind": "callable", "params": [["a", ["optd", "A", None]], ["m", ["ds", "u4"]]],
+         "dispatch": ["optd", "D2", "x"], "cache": ["bounded", 3],
+         "overloads": [{"how": "list", "aliases": ["zz", None], "target": ["new", sub("u5_l", [["k", ["const", 3]], ["b", ["opt", "B"]]], "raise_if", "class")]},
+                       {"how": "register", "aliases": ["y"], "target": ["ds", "u3"]}]},
+        {"name": "u6", "form": "explicit", "kind": "stamp", "defkind": "classmethod", "params": [["a", ["opt", "A"]]],
+         "cache": ["bounded", 4], "effects": ["TagEffect('t6', Option('B'))"], "overloads": []},
+        {"name": "u7", "form": "explicit", "kind": "tag", "defkind": "staticmethod", "params": [["a", ["opt", "A"]], ["s", ["ds", "u6"]]],
+         "dispatch": ["key", "M.SRC"], "abstract": True,
+         "overloads": [{"how": "overload", "aliases": [1], "target": ["new", sub("u7_x", [["t", ["opt", "T.U.V"]]], defkind="method")]},
+                       {"how": "register", "aliases": ["y"], "target": ["ds", "u5"]}]},
+        {"name": "u8", "form": "explicit", "kind": "tag", "defkind": "staticmethod", "params": [["a", ["opt", "A"]], ["b", ["optd", "B", 1]]],
+         "overloads": []},
+        # dependencies on option namespaces: whole namespace objects (bare, nested, named), members, a Map over a namespace,
+        # a namespace member as the dispatch source
+        {"name": "n0", "form": "explicit", "kind": "tag", "params": [["ns1", ["ns", "NS1"]], ["named", ["ns", "NS0.NAMED"]], ["x", ["nsm", "NS0.SUB.X"]], ["n", ["nsm", "NS0.N"]]],
+         "overloads": []},
+        {"name": "n1", "form": "explicit", "kind": "tag", "params": [["a", ["optd", "A", 0]], ["m", ["mapns", "NS0.SUB", "NS0.SUB.X", [1, 2]]]],
+         "dispatch": ["nsm", "NS0.MODE"], "callback": ["cb1"],
+         "overloads": [{"how": "register", "aliases": ["y"], "target": ["ds", "n0"]},
+                       {"how": "overload", "aliases": [2], "target": ["new", sub("n1_o", [["inner", ["ns", "NS1.IN"]], ["b", ["nsm", "NS1.IN.B"]]])]}]},
+        {"name": "n2", "form": "explicit", "kind": "raise_if", "defkind": "class", "params": [["whole", ["ns", "NS0"]], ["m", ["mapns", "NS1", "PKG-1.A", [3]]], ["d", ["ds", "n1"]]],
+         "dispatch": ["nsm", "NS1.MODE"], "cache": ["bounded", 2], "default_options": {"NS0": {"A": 4}},
+         "overloads": [{"how": "register", "aliases": ["x"], "target": ["opt", "B"]}]},
+    ]
+    derived = [{"name": "u1_w", "base": "u1", "how": "with_options", "options": {"D1": "y", "C": "pre"}},
+               {"name": "u5_d", "base": "u5", "how": "with_default_options", "options": {"A": 3}},
+               {"name": "u0_w", "base": "u0", "how": "with_options", "options": {"S": {"X": 1}}},
+               {"name": "n1_w", "base": "n1", "how": "with_options", "options": {"NS0": {"MODE": "y", "SUB": {"X": 9}}}}]
+    return {"module": modname, "datasets": dss, "derived": derived, "user": True, "namespaces": True}
 
 
 def cyclic_spec(modname):
@@ -444,6 +698,8 @@ def used_aliases(spec):
         d = ds.get("dispatch")
         if d and d[0] == "optd":
             out.append(d[2])
+        if d and d[0] == "nsm":
+            out.append(NS_DISPATCH[d[1]][1])
         for ov in ds.get("overloads", []):
             out.extend(ov["aliases"])
     out.extend(cy["alias"] for cy in spec.get("cycles", []))
@@ -457,20 +713,25 @@ def used_aliases(spec):
 
 def gen_dicts(rng, spec, quick):
     """The options dictionaries every graph of the module is observed on."""
+    ns = bool(spec.get("namespaces"))
+    dkeys = DKEYS + ([k for k, _ in NS_DISPATCH.values()] if ns else [])
     full_flat = {k: v for k, v in zip(KEYS, [1, 2, "three", 4, "five", 6])}
     als = used_aliases(spec) or ["x"]
-    for i, dk in enumerate(DKEYS):
+    for i, dk in enumerate(dkeys):
         full_flat[dk] = als[i % len(als)]
     full_flat["E"] = 5
-    dicts = [{}, _nest(full_flat)]
     missing = list(full_flat)                                   # each single key missing
     if quick:
         missing = rng.sample(missing, 6)
+    if ns:                                                      # ... and each namespace member without a default
+        full_flat.update(NS_FULL)
+        missing += list(NS_FULL)
+    dicts = [{}, _nest(full_flat)]
     for k in missing:
         f = dict(full_flat)
         del f[k]
         dicts.append(_nest(f))
-    for dk in DKEYS:                                            # dispatch values registered / unregistered
+    for dk in dkeys:                                            # dispatch values registered / unregistered
         vals = als + ["nope"]
         if quick and len(vals) > 3:
             vals = rng.sample(als, 2) + ["nope"]
@@ -479,7 +740,7 @@ def gen_dicts(rng, spec, quick):
             f[dk] = a
             dicts.append(_nest(f))
     f = dict(full_flat)
-    for dk in DKEYS:                                            # no dispatch key at all
+    for dk in dkeys:                                            # no dispatch key at all
         del f[dk]
     dicts.append(_nest(f))
     dicts.append(_nest(dict(full_flat, ZZ=1, **{"S.EXTRA": 2})))  # extra keys
@@ -511,6 +772,8 @@ def own_dispatch_key(spec, gname):
         return None, False
     if d[0] in ("key", "optd"):
         return d[1], True
+    if d[0] == "nsm":
+        return NS_DISPATCH[d[1]][0], True
     src = by[d[1]]["params"][0][1]
     return src[1], False
 
@@ -538,6 +801,8 @@ def enc(v):
         return {"L": [enc(x) for x in v]}
     if isinstance(v, dict):
         return {"O": [[k, enc(x)] for k, x in v.items()]}
+    if callable(getattr(v, "as_tuple", None)):       # the value of a dataset defined by a CLASS: the instance
+        return {"T": [enc("instance of " + type(v).__name__)] + [enc(x) for x in v.as_tuple()]}
     return {"?": type(v).__name__}
 
 
@@ -556,6 +821,8 @@ def stamps_of(v, out=None):
     elif isinstance(v, dict):
         for x in v.values():
             stamps_of(x, out)
+    elif callable(getattr(v, "as_tuple", None)):
+        stamps_of(v.as_tuple(), out)
     return out
 
 
@@ -638,8 +905,10 @@ def generic_state(root):
             return ["bytes", o.decode("latin-1")]
         if isinstance(o, LOCK_TYPES):
             return ["LOCK"]
-        if isinstance(o, (types.FunctionType, types.BuiltinFunctionType, types.MethodType)):
+        if isinstance(o, (types.FunctionType, types.BuiltinFunctionType)):
             return ["func", getattr(o, "__module__", None), getattr(o, "__qualname__", None)]
+        if isinstance(o, types.MethodType):       # a bound method: the function AND the state of what it is bound to
+            return ["method", go(o.__func__), go(o.__self__)]
         if isinstance(o, type):
             return ["type", o.__module__, o.__qualname__]
         import enum
@@ -653,6 +922,9 @@ def generic_state(root):
             return [type(o).__name__] + [go(x) for x in o]
         if isinstance(o, dict):
             return ["dict"] + [[go(k), go(v)] for k, v in o.items()]
+        import functools
+        if isinstance(o, functools.partial):
+            return ["partial", go(o.func), go(o.args), go(o.keywords), go(getattr(o, "__dict__", None))]
         if isinstance(o, (set, frozenset)):
             return ["set"] + sorted((go(x) for x in o), key=lambda s: json.dumps(s, sort_keys=True, default=str))
         d = getattr(o, "__dict__", None)
@@ -695,6 +967,24 @@ class Unmodelled(Exception):
 
 IMPURE = "impure body (its value embeds the process id and a call counter)"
 CYCLIC = "cyclic graph (the model's states are trees)"
+USER = "user: "      # prefix: a user subclass of a library class / a definition that is not a plain function; outside the
+#                      model ONLY in modules generated with such parts (spec["user"]); elsewhere the CODE left the model
+OUTSIDE = {IMPURE: "impure_graph_states", CYCLIC: "cyclic_graph_states"}
+
+
+def outside_model(spec, reason):
+    """a reason for which a graph of this module is judged by the oracle alone -> the statistic it is counted under"""
+    if reason in OUTSIDE:
+        return OUTSIDE[reason]
+    if spec.get("user") and str(reason).startswith(USER):
+        return "user_kind_graph_states"
+    if spec.get("namespaces") and str(reason).startswith("class labrea."):     # Namespace, Map, Apply (Option.auto >> f)
+        return "namespace_graph_states"
+    return None
+
+
+def _user(o):
+    return USER if not type(o).__module__.startswith("labrea") else ""
 
 
 def _jsonable(v):
@@ -734,7 +1024,7 @@ def model_state(root):
 
     def fname(f):
         if not isinstance(f, types.FunctionType):
-            raise Unmodelled(f"not a plain function: {type(f).__name__}")
+            raise Unmodelled(f"{USER}definition is not a plain function: {type(f).__name__}")
         if "_stamp" in f.__code__.co_names:
             raise Unmodelled(IMPURE)
         info["funcs"][f.__qualname__] = importable(f)
@@ -748,11 +1038,11 @@ def model_state(root):
 
     def steps(p):
         if type(p) is not Pipeline:
-            raise Unmodelled(f"callback is {type(p).__name__}")
+            raise Unmodelled(f"{_user(p)}callback is {type(p).__name__}")
         tail, rest = need(p, "tail", "rest")
         out = steps(rest) if rest is not None else []
         if type(tail) is not PipelineStep:
-            raise Unmodelled("pipeline tail")
+            raise Unmodelled(f"{_user(tail)}pipeline tail {type(tail).__name__}")
         (st,) = need(tail, "step")
         if type(st) is Value and need(st, "value")[0] is _identity:
             return out
@@ -812,7 +1102,7 @@ def model_state(root):
             effs = []
             for e in effects:
                 if type(e) is not CallbackEffect:
-                    raise Unmodelled(f"effect {type(e).__name__}")
+                    raise Unmodelled(f"{_user(e)}effect {type(e).__name__}")
                 effs.append(vfunc(need(e, "callback")[0]))
             if type(cache) is NoCache:
                 c = ["nocache"]
@@ -826,7 +1116,7 @@ def model_state(root):
                     ents.append([pairs, enc(val)])
                 c = ["mem", ents]
             else:
-                raise Unmodelled(f"cache {type(cache).__name__}")
+                raise Unmodelled(f"{_user(cache)}cache {type(cache).__name__}")
             if not (_jsonable(options) and _jsonable(dopts)):
                 raise Unmodelled("options")
             d = o.__dict__
@@ -1214,8 +1504,8 @@ class ModuleRun:
         except Unmodelled as e:
             rec["ms" + tag], rec["info" + tag] = None, None
             rec["unmodelled"] = str(e)
-            if str(e) in (IMPURE, CYCLIC):
-                k = "impure_graph_states" if str(e) == IMPURE else "cyclic_graph_states"
+            k = outside_model(self.spec, str(e))
+            if k is not None:
                 self.stats[k] = self.stats.get(k, 0) + 1
             else:      # the generator stays inside the model's universe: the CODE left it
                 self.mism.append(dict(where="state_of(original) is outside Model/Pickle.v", graph=name, state=tag,
@@ -1260,7 +1550,7 @@ class ModuleRun:
                 self.stats["top_level_cache_entries_pickled"] = (self.stats.get("top_level_cache_entries_pickled", 0)
                                                                  + len(rec["msB"][3][1]))
             info = rec["infoA"]
-            if info is None and rec.get("unmodelled") in (IMPURE, CYCLIC):
+            if info is None and outside_model(self.spec, rec.get("unmodelled")) is not None:
                 info = {"funcs": reach_funcs(g)}      # the D18 zone is decided without the model's image
             d18_zone = info is not None and not all(info["funcs"].values())
             rec["d18_zone"] = d18_zone
@@ -1926,12 +2216,15 @@ def run(ctx):
         specs.append((spec, gen_dicts(rng, spec, quick)))
     spec = cyclic_spec(f"c20c_{tagid}")
     specs.append((spec, gen_dicts(rng, spec, quick)))
+    import random
+    spec = userkinds_spec(f"c20u_{tagid}")      # its dictionaries come from a generator of their own: the streams below are what they were
+    specs.append((spec, gen_dicts(random.Random(f"C20-user-{ctx.seed}"), spec, quick)))
     for k in range(n_mod):
         mixed = (k % 2 == 1)
         spec = gen_world(rng, f"c20m_{tagid}_{k}", mixed, max_ds=5 if quick else 6)
         specs.append((spec, gen_dicts(rng, spec, quick)))
     for k in range(1 if quick else 10):      # modules with impure bodies (oracle only: outside Model/Pickle.v)
-        spec = gen_world(rng, f"c20i_{tagid}_{k}", k % 2 == 1, max_ds=5 if quick else 6, impure=0.45)
+        spec = gen_world(rng, f"c20i_{tagid}_{k}", k % 2 == 1, max_ds=5 if quick else 6, impure=0.45, user=0.35)
         specs.append((spec, gen_dicts(rng, spec, quick)))
     hashseeds = [0, rng.randint(1, 4_000_000)] if quick else [0] + [rng.randint(1, 4_000_000) for _ in range(3)]
     runs, child_stats = run_specs(ctx, specs, hashseeds, quick=quick)
@@ -1981,7 +2274,9 @@ def run(ctx):
                 "Option with default / another dataset, overloads via register/overload/stacked/list aliases, pre-set and default "
                 "options, callbacks, effects, nocache, with_options derivatives; every body logs its own call; the hand-written modules and one "
                 "more generated module per four contain IMPURE bodies whose value embeds (os.getpid(), call counter); that module and a "
-                "hand-written one contain CYCLIC graphs: an overload computed from a with_options copy of its own dataset) x ~35 option dictionaries (sufficient, each key "
+                "hand-written one contain CYCLIC graphs: an overload computed from a with_options copy of its own dataset; a further hand-written module and the "
+                "impure generated one contain datasets defined by a class / functools.partial / bound method / classmethod / staticmethod / callable instance and "
+                "datasets holding user subclasses of MemoryCache (bounded: misses as well as hits on the copy), Cache, Effect, PipelineStep with own state) x ~35 option dictionaries (sufficient, each key "
                 "missing, every registered/unregistered dispatch value, extra keys, raising values, LABREA switches) x protocols 0-5 "
                 "x {in-process, fresh interpreter with fixed and varied hash seed} x {cold, warm cache}; an evaluation = one "
                 "(object, dictionary) observation (evaluate+keys+validate+explain+effect log) or one structural-state comparison; "
